@@ -7,15 +7,15 @@ namespace Rx.GenTie
 open Rx Rx.Gen.RcObserver
 
 theorem rc_next (g : RcObserver) (v : Val) :
-    RcObserver.next g v = some (g, if g.isSome then [Notif.next v] else []) := by
+    RcObserver.next g v = some (g, if g.isSome then [Rs.Ev.n (Notif.next v)] else []) := by
   cases g <;> rs_simp [RcObserver.next]
 
 theorem rc_error (g : RcObserver) (e : Err) :
-    RcObserver.error g e = some (none, if g.isSome then [Notif.error e] else []) := by
+    RcObserver.error g e = some (none, if g.isSome then [Rs.Ev.n (Notif.error e)] else []) := by
   cases g <;> rs_simp [RcObserver.error]
 
 theorem rc_complete (g : RcObserver) :
-    RcObserver.complete g = some (none, if g.isSome then [Notif.complete] else []) := by
+    RcObserver.complete g = some (none, if g.isSome then [Rs.Ev.n Notif.complete] else []) := by
   cases g <;> rs_simp [RcObserver.complete]
 
 theorem rc_finished (g : RcObserver) (d : Bool) :
